@@ -5,7 +5,7 @@ Proof (S-tied): Props/C32.v over data regenerated from /repo on every run
                       @wp.func, factories), enum tables, put_model rejection loop, per-kernel tested bits, truth
                       tables of the host tests;
   Gen/Skel_pipeline.v the host program, flattened by Model/Pipeline.v.
-Theorems: flag_table_complete, sleep_guard_consistent_refuted, taint_sound / resolve_sound (generic),
+Theorems: flag_table_complete, sleep_guard_consistent, taint_sound / resolve_sound (generic),
 flag_events_differ_only_in_guarded_regions, flag_noninterference_partial, flag_gates_only_own_stage_partial.
 
 Ties to the real code, run on every check:
@@ -34,7 +34,7 @@ import propkit
 import vlib
 
 MANIFEST = {
-  "text": "proof: (1) every bit of types.DisableBit/EnableBit is consumed somewhere in /repo and equals the MuJoCo member it is defined as; every bit of the installed MuJoCo's mjtDisableBit/mjtEnableBit that MJWarp does not list falls under put_model's rejection loop; (2) the predicate `sleeping enabled` is spelled with and without the ISLAND bit at different sites (refutation witness SLEEP & ISLAND-disabled, crashes the real step); (3) for the host program regenerated from /repo and each of 15 flags read by step(): flattening with the bit's conditions decided (set / clear) equals the undecided flattening with the decided EIf nodes replaced by the chosen branch, and in an abstract footprint semantics (kernels uninterpreted, flag words refined to the bits each kernel tests) two runs whose flag words differ in that one bit agree on every field outside a computed taint set, in particular on a committed per-flag list of watched fields. tested only: that each gated contribution is the right one (differential oracle vs MuJoCo C), NATIVECCD / MULTICCD / FILTERPARENT / ISLAND / SLEEP / INVDISCRETE effects",
+  "text": "proof: (1) every bit of types.DisableBit/EnableBit is consumed somewhere in /repo and equals the MuJoCo member it is defined as; every bit of the installed MuJoCo's mjtDisableBit/mjtEnableBit that MJWarp does not list falls under put_model's rejection loop; (2) the predicate `sleeping enabled` is one predicate: every direct test of EnableBit.SLEEP also tests ISLAND except in a committed list of three functions where SLEEP alone is harmless, and every function that chooses / allocates for / consumes the sleep path tests SLEEP-and-not-ISLAND (the former crash witness SLEEP & ISLAND-disabled is a regression case); (3) for the host program regenerated from /repo and each of 15 flags read by step(): flattening with the bit's conditions decided (set / clear) equals the undecided flattening with the decided EIf nodes replaced by the chosen branch, and in an abstract footprint semantics (kernels uninterpreted, flag words refined to the bits each kernel tests) two runs whose flag words differ in that one bit agree on every field outside a computed taint set, in particular on a committed per-flag list of watched fields. tested only: that each gated contribution is the right one (differential oracle vs MuJoCo C), NATIVECCD / MULTICCD / FILTERPARENT / ISLAND / SLEEP / INVDISCRETE effects",
   "note": "trusted: Coq kernel; bin/extract_flags.py (Python ast walk + three-valued evaluator, validated every run against Python's evaluation of the same expressions); bin/extract_launch.py (field names are text: aliasing through local names is followed only for `n = expr` assignments); abstract semantics Model/Pipeline.v; MuJoCo 3.13 binary as oracle; float32 vs float64 tolerance 1e-3 relative to (1 + field magnitude)",
   "technique": "Rocq proof over tables and a stage program machine-extracted from the source (S): verified information-flow analysis + decidable checks by vm_compute; differential oracle on the implementation",
   "engine": "coq",
@@ -452,11 +452,28 @@ m = mujoco.MjModel.from_xml_string(sys.argv[1])
 m.opt.enableflags = int(mujoco.mjtEnableBit.mjENBL_SLEEP)
 m.opt.disableflags = int(mujoco.mjtDisableBit.mjDSBL_ISLAND) if sys.argv[2] == "1" else 0
 d = mujoco.MjData(m)
+d.qpos[2] = 0.095  # the ball touches the floor: the broadphase sleep filter sees a real pair
 mm = mjw.put_model(m)
-dd = mjw.put_data(m, d) if sys.argv[3] == "put" else mjw.make_data(m)
-mjw.step(mm, dd)
-mujoco.mj_step(m, d)
-print("RESULT", float(np.max(np.abs(dd.qacc.numpy()[0] - d.qacc))))
+if sys.argv[3] == "put":
+  dd = mjw.put_data(m, d)
+else:
+  dd = mjw.make_data(m)
+  q = dd.qpos.numpy(); q[0, 2] = 0.095; dd.qpos.assign(q)
+worst, ncon = 0.0, []
+def both(n):
+  global worst
+  for _ in range(n):
+    mjw.step(mm, dd)
+    mujoco.mj_step(m, d)
+    worst = max(worst, float(np.max(np.abs(dd.qacc.numpy()[0] - d.qacc)) / (1.0 + np.max(np.abs(d.qacc)))))
+    ncon.append((int(dd.nacon.numpy()[0]), int(d.ncon)))
+both(3)
+# reset_data tests SLEEP alone (sleep_only_harmless): reset both sides and continue
+mjw.reset_data(mm, dd)
+mujoco.mj_resetData(m, d)
+q = dd.qpos.numpy(); q[0, 2] = 0.095; dd.qpos.assign(q); d.qpos[2] = 0.095
+both(2)
+print("RESULT", worst, int(all(a == b for a, b in ncon)), int(max(a for a, _ in ncon)))
 """
 
 
@@ -478,8 +495,8 @@ def sleep_collect(procs):
     except subprocess.TimeoutExpired:
       p.kill()
       so = ""
-    mm = re.search(r"RESULT (\S+)", so or "")
-    out[k] = {"returncode": p.returncode, "max_abs_qacc_diff_vs_mujoco": float(mm.group(1)) if mm else None}
+    mm = re.search(r"RESULT (\S+) (\d) (\d+)", so or "")
+    out[k] = {"returncode": p.returncode, "max_abs_qacc_diff_vs_mujoco": float(mm.group(1)) if mm else None, "contact_counts_equal": bool(int(mm.group(2))) if mm else None, "max_contacts": int(mm.group(3)) if mm else None}
   return {"xml": SLEEP_XML, "enableflags": "SLEEP", "disableflags": "ISLAND", "runs": out}
 
 
@@ -660,7 +677,7 @@ def run(res):
     res.violation("C32:oracle:" + "+".join(f["flags"]) + ":" + f["fields"][0], f"flags {f['flags']}: MJWarp differs from MuJoCo in {f['fields']} (model {f['model']})", f)
 
   phase("oracle")
-  # ---- directed: known findings --------------------------------------------------------------------------------
+  # ---- directed: regression cases of repaired findings (original keys) and open findings --------------------------------------------------------------------------------
   fl = fluid_case()
   res.count(len(fl["runs"]))
   bad_runs = [k for k, v in fl["runs"].items() if not _close(v["qvel_mjw"], v["qvel_mujoco"])]
@@ -668,14 +685,14 @@ def run(res):
   for k in bad_runs:
     found = True
     key = KEY_FLUID if k == "SPRING|DAMPER" else f"C32:implicitfast:fluid:{k}"
-    res.violation(key, f"implicitfast with fluid forces, flags {k}: passive() switches every passive force off (fluid included) when SPRING and DAMPER are both disabled, but derivative.deriv_smooth_vel still adds the fluid velocity derivative to M - h*qDeriv, so the step differs from mujoco.mj_step", fl)
+    res.violation(key, f"(regression of the finding repaired in /repo a0466b7) implicitfast with fluid forces, flags {k}: passive() switches every passive force off (fluid included) when SPRING and DAMPER are both disabled, but derivative.deriv_smooth_vel still adds the fluid velocity derivative to M - h*qDeriv, so the step differs from mujoco.mj_step", fl)
   sl = sleep_collect(sleep_procs)
   res.count(len(sl["runs"]))
   res.sample({"kind": "directed-sleep-island", "runs": sl["runs"]})
-  crashed = [k for k, v in sl["runs"].items() if v["returncode"] != 0 or v["max_abs_qacc_diff_vs_mujoco"] is None or v["max_abs_qacc_diff_vs_mujoco"] > 1e-2]
+  crashed = [k for k, v in sl["runs"].items() if v["returncode"] != 0 or v["max_abs_qacc_diff_vs_mujoco"] is None or v["max_abs_qacc_diff_vs_mujoco"] > RTOL or not v["contact_counts_equal"] or not v["max_contacts"]]
   if crashed:
     found = True
-    res.violation(KEY_SLEEP, f"enableflags=SLEEP with disableflags=ISLAND: mjw.step fails ({crashed}); solver.solve tests only EnableBit.SLEEP and runs the compact solver, whose arrays make_data/put_data allocate only when SLEEP and not ISLAND-disabled (C32_sleep_guard_consistent_refuted); MuJoCo accepts the combination", sl)
+    res.violation(KEY_SLEEP, f"enableflags=SLEEP with disableflags=ISLAND: step / reset_data / step fails or differs from MuJoCo ({crashed}); regression of the finding repaired in /repo 783455b (solver.solve ran the compact solver on arrays make_data/put_data allocate only when SLEEP and not ISLAND-disabled) or one of the SLEEP-only sites of C32_sleep_guard_consistent is no longer harmless", sl)
   ar = autoreset_case()
   res.count(2)
   d0 = ar["runs"]["default"]
@@ -687,7 +704,7 @@ def run(res):
   off = en["runs"]["ENERGY-off"]
   if not _close(off["energy_mjw"], off["energy_mujoco"]) and _close(off["sensordata_mjw"], off["sensordata_mujoco"]):
     found = True
-    res.violation(KEY_ENERGY, "ENERGY flag off with e_potential/e_kinetic sensors: the sensors compute d.energy (as in MuJoCo), then forward._energy_pos zeroes it because the flag is off; sensordata agree, d.energy does not", en)
+    res.violation(KEY_ENERGY, "(regression of the finding repaired in /repo 0b3aef1) ENERGY flag off with e_potential/e_kinetic sensors: the sensors compute d.energy (as in MuJoCo), then forward._energy_pos zeroes it because the flag is off; sensordata agree, d.energy does not", en)
 
   phase("directed")
   if (not ok or not tables_ok or not pred_ok) and not found:
